@@ -1,6 +1,7 @@
 package rules
 
 import (
+	"fmt"
 	"sort"
 
 	"fpcheck/internal/core"
@@ -210,4 +211,79 @@ func insideLoop(b *ssa.BasicBlock) bool {
 		return false
 	}
 	return false
+}
+
+// lockBalance checks, for every given function (and its closures), that each lock it acquires itself is
+// released again on every return path: by an explicit unlock of the same mode, or by a deferred one.
+// Locks already held on entry (lock wrappers' callees, helpers called under the lock) are the caller's.
+func lockBalance(c *core.Ctx, li *core.LockInfo, rule string, fns []*ssa.Function) {
+	p := c.P
+	for _, f := range fns {
+		acquires := false
+		core.Instrs(f, func(ins ssa.Instruction) {
+			if call, ok := ins.(*ssa.Call); ok {
+				if op, _, ok2 := core.LockOp(&call.Call); ok2 && (op == "Lock" || op == "RLock") {
+					acquires = true
+				}
+			}
+		})
+		if !acquires {
+			continue
+		}
+		key := core.FuncName(f) + "/lock-balance"
+		bad := ""
+		core.Instrs(f, func(ins ssa.Instruction) {
+			r, ok := ins.(*ssa.Return)
+			if !ok || r.Block() == f.Recover {
+				return
+			}
+			ls := li.At[ins].Clone()
+			applyDefers(f, ls)
+			for k := range li.Entry[f] {
+				delete(ls, k)
+			}
+			if len(ls) > 0 {
+				bad = fmt.Sprintf("returns at %s with %s still held (no matching unlock of the same mode on this path, no deferred one): the next operation on the object blocks forever / the runtime aborts on a mismatched unlock", p.InstrPos(ins), ls)
+			}
+		})
+		// a deferred or explicit unlock of a mode that is not held is a runtime fatal error
+		core.Instrs(f, func(ins ssa.Instruction) {
+			ci, ok := ins.(ssa.CallInstruction)
+			if !ok {
+				return
+			}
+			op, path, ok2 := core.LockOp(ci.Common())
+			if !ok2 || (op != "Unlock" && op != "RUnlock") {
+				return
+			}
+			if _, isDefer := ins.(*ssa.Defer); isDefer {
+				// the matching lock must have been taken before the defer was registered
+				mode := map[string]string{"Unlock": "W", "RUnlock": "R"}[op]
+				if !li.At[ins].Has(path, mode) {
+					bad = fmt.Sprintf("defers %s of %s at %s although that mode is not held there (held=%s): fatal error at function exit", op, path, p.InstrPos(ins), li.At[ins])
+				}
+				return
+			}
+			mode := map[string]string{"Unlock": "W", "RUnlock": "R"}[op]
+			if !li.At[ins].Has(path, mode) {
+				bad = fmt.Sprintf("%s of %s at %s although that mode is not held there (held=%s): fatal error", op, path, p.InstrPos(ins), li.At[ins])
+			}
+		})
+		c.Check(bad == "", rule, key, p.Pos(f.Pos()), "every lock taken here is released (same mode) on every return path", bad)
+	}
+}
+
+// funcsOfType returns the methods of the named type of a package and their closures.
+func funcsOfType(p *core.Prog, pkg *ssa.Package, typ string) []*ssa.Function {
+	var out []*ssa.Function
+	for _, f := range p.Funcs {
+		root := f
+		for root.Parent() != nil {
+			root = root.Parent()
+		}
+		if root.Pkg == pkg && root.Signature.Recv() != nil && core.TypeName(root.Signature.Recv().Type()) == typ {
+			out = append(out, f)
+		}
+	}
+	return out
 }
